@@ -369,7 +369,7 @@ pub fn run(ctx: &Ctx) -> Outcome {
     );
     let d = directed();
     run_cases(ctx, &mut out, SubSpec { name: "directed", cases: d.len() as u64, exhaustive: false, max_secs: 60. }, |i, want, st| run_case(&d[i as usize], st, want));
-    run_cases(ctx, &mut out, SubSpec { name: "dashed_strokes", cases: ctx.n(10_000, 800_000), exhaustive: false, max_secs: if ctx.quick() { 40. } else { 900. } }, |i, want, st| {
+    run_cases(ctx, &mut out, SubSpec { name: "dashed_strokes", cases: ctx.n(30_000, 800_000), exhaustive: false, max_secs: if ctx.quick() { 40. } else { 900. } }, |i, want, st| {
         let mut rng = ctx.rng("dashed_strokes", i);
         let c = gen_case(&mut rng);
         run_case(&c, st, want)
